@@ -177,6 +177,17 @@ def strings_HasSuffix (s p : List UInt8) : Bool := p.isSuffixOf s
 def strings_TrimPrefix (s p : List UInt8) : List UInt8 := if p.isPrefixOf s then s.drop p.length else s
 def strings_TrimSuffix (s p : List UInt8) : List UInt8 := if p.isSuffixOf s then s.take (s.length - p.length) else s
 
+/-- non-overlapping occurrences of a non-empty `sep`, left to right -/
+def countFrom (sep : List UInt8) : Nat → List UInt8 → Nat
+  | 0, _ => 0
+  | _ + 1, [] => 0
+  | fuel + 1, x :: xs =>
+    if sep.isPrefixOf (x :: xs) then 1 + countFrom sep fuel ((x :: xs).drop sep.length) else countFrom sep fuel xs
+
+/-- `strings.Count(s, sep)`: non-overlapping instances; for an empty `sep`, the number of runes + 1 -/
+def strings_Count (s sep : List UInt8) : Int :=
+  if sep = [] then Int.ofNat ((runes s).length + 1) else Int.ofNat (countFrom sep (s.length + 1) s)
+
 /-- `strings.LastIndex(s, sep)` for a non-empty `sep` (the translator only passes constants) -/
 def lastIndexFrom (sep : List UInt8) : Nat → List UInt8 → Int
   | _, [] => -1
